@@ -12,26 +12,37 @@ use proptest::prelude::*;
 use sliding_features::View;
 
 /// a child view: Echo, Constant, or any unary view over Echo (windows at or above the listed-finding thresholds)
+fn child_of(w: usize, n: usize, c: i64) -> Spec {
+    if w == 38 {
+        return Spec::Echo;
+    }
+    if w == 39 {
+        return Spec::Constant(c as f64 / 8.0);
+    }
+    let cands = unary_over(&Spec::Echo, n);
+    let s = cands[w % cands.len()].clone();
+    let need = safe_min_window(s.name());
+    if n < need {
+        let c2 = unary_over(&Spec::Echo, need);
+        c2[w % c2.len()].clone()
+    } else {
+        s
+    }
+}
 fn child() -> BoxedStrategy<Spec> {
-    (0usize..40, 1usize..=12, 0usize..8, -64i64..=64)
-        .prop_map(|(w, n, _p, c)| {
-            if w == 38 {
-                return Spec::Echo;
-            }
-            if w == 39 {
-                return Spec::Constant(c as f64 / 8.0);
-            }
-            let cands = unary_over(&Spec::Echo, n);
-            let s = cands[w % cands.len()].clone();
-            let need = safe_min_window(s.name());
-            if n < need {
-                let c2 = unary_over(&Spec::Echo, need);
-                c2[w % c2.len()].clone()
-            } else {
-                s
-            }
-        })
-        .boxed()
+    (0usize..40, 1usize..=12, 0usize..8, -64i64..=64).prop_map(|(w, n, _p, c)| child_of(w, n, c)).boxed()
+}
+/// fz_single: combinator, two children, scalar, stream (positive where a child or the division needs it)
+pub fn fuzz_decode(u: &mut arbitrary::Unstructured) -> Option<(String, Case)> {
+    let op = u.int_in_range(0..=3usize).ok()?;
+    let a = child_of(u.int_in_range(0..=39usize).ok()?, 1 + u.int_in_range(0..=11usize).ok()?, u.int_in_range(-64..=64i64).ok()?);
+    let b = child_of(u.int_in_range(0..=39usize).ok()?, 1 + u.int_in_range(0..=11usize).ok()?, u.int_in_range(-64..=64i64).ok()?);
+    let scalar = u.int_in_range(0..=2i64).ok()?;
+    let c = 1 + u.int_in_range(0..=511i64).ok()?;
+    let b = if op == 3 && !b.positivity_preserving() { Spec::Constant(c as f64 / 8.0) } else { b };
+    let positive = a.needs_positive_input() || b.needs_positive_input() || op == 3;
+    let xs = crate::fuzzdec::stream(u, positive, 200);
+    Some((format!("C14/{}/pointwise", OPS[op]), Case { spec: Some(a), spec2: Some(b), xs, ints: vec![op as i64, scalar], a: Rat(1, 1), ..Default::default() }))
 }
 
 fn binary_case(op: usize) -> impl Fn(Tier) -> BoxedStrategy<Case> + Send + Sync {
